@@ -41,7 +41,7 @@ def parse_reference_path(ref_path_raw: str) -> Union[ReferencePath, ParseError]:
         - https://swagger.io/docs/specification/using-ref/
     """
     parsed = urlparse(ref_path_raw)
-    if parsed.scheme or parsed.path:
+    if parsed.scheme or parsed.netloc or parsed.path or parsed.params or parsed.query:
         return ParseError(detail=f"Remote references such as {ref_path_raw} are not supported yet.")
     return cast(ReferencePath, parsed.fragment)
 
